@@ -155,6 +155,9 @@ enum What {
     /// Valve: 0..4 challenges in a row per request: every request carries exactly the challenge issued last, nothing of the
     /// earlier ones
     ValveChallengeRows,
+    /// the Minecraft module's single-variant wrappers (which resolve an omitted port themselves): port given / omitted x
+    /// address kinds; the default ports are the ones of the definitions table, written out here (25565, Bedrock 19132)
+    McModule { which: u8, port: Option<u16>, v6: u8 },
 }
 
 #[derive(Clone)]
@@ -224,6 +227,16 @@ fn build(tier: Tier) -> Vec<Case> {
         lo += 1024;
     }
     v.push(Case { label: "gamespy3 challenge texts: i32 extremes and +-2^k".into(), what: What::Gs3Challenges { lo: 0, hi: 0, special: true } });
+    for which in 0 .. 5u8 {
+        for port in [None, Some(PORT)] {
+            for v6 in [0u8, 1, 2] {
+                v.push(Case {
+                    label: format!("games::minecraft::{} port={port:?} {}", ["query_java", "query_bedrock", "query_legacy_specific(1.6)", "query_legacy_specific(1.4)", "query_legacy_specific(beta 1.8)"][which as usize], ["ipv4", "ipv6", "ipv6 ::1"][v6 as usize]),
+                    what: What::McModule { which, port, v6 },
+                });
+            }
+        }
+    }
     v.push(Case { label: "java handshake: hostnames x protocol versions x ports".into(), what: What::JavaHandshake });
     v.push(Case { label: "valve: 0..4 challenges in a row on each of info / players / rules".into(), what: What::ValveChallengeRows });
     v
@@ -310,7 +323,7 @@ impl Prop for C09 {
          ports over the u16 alphabet, plus protocol versions at every 7-bit VarInt group boundary +-1 and every host-name length 0..=300: \
          varint framing, host name, big-endian port, next state 1, status request, ping. (e) 0..4 Valve challenges in a row on each request x 2 challenge lists x 2 engines. \
          (f) the Minecraft fallback chains (5 entry points) against servers on which only some variants answer: the chain stops at the answering step. \
-         (g) every protocol entry point in ONE fresh process in list order and back (and the reverse): same exchange, same answer the second time"
+         (h) the Minecraft module's single-variant wrappers (query_java, query_bedrock, query_legacy_specific x 3) x port given/omitted x three address kinds: destination = the given port or 25565 / 19132. (g) every protocol entry point in ONE fresh process in list order and back (and the reverse): same exchange, same answer the second time"
             .into()
     }
     fn assumptions(&self) -> Vec<String> {
@@ -353,6 +366,30 @@ impl Prop for C09 {
                         compare(ctx, x, &exp, &family_tag(fam), &case.label);
                     },
                 );
+            }
+            What::McModule { which, port, v6 } => {
+                use gamedig::games::minecraft as mc;
+                let ip = match v6 { 0 => IP4, 1 => IP6, _ => IpAddr::V6(Ipv6Addr::LOCALHOST) };
+                let fam = match which {
+                    0 => Family::Java,
+                    1 => Family::Bedrock,
+                    2 => Family::Legacy(LegacyKind::V1_6),
+                    3 => Family::Legacy(LegacyKind::V1_4),
+                    _ => Family::Legacy(LegacyKind::VB1_8),
+                };
+                let server = server_for(fam);
+                let x = run_query(server(), Box::new(Faithful), Chooser::new(&[]), || match which {
+                    0 => mc::query_java(&ip, port, None).map(|r| to_json(&r)),
+                    1 => mc::query_bedrock(&ip, port).map(|r| to_json(&r)),
+                    2 => mc::query_legacy_specific(mc::LegacyGroup::V1_6, &ip, port).map(|r| to_json(&r)),
+                    3 => mc::query_legacy_specific(mc::LegacyGroup::V1_4, &ip, port).map(|r| to_json(&r)),
+                    _ => mc::query_legacy_specific(mc::LegacyGroup::VB1_8, &ip, port).map(|r| to_json(&r)),
+                });
+                ctx.account(&x, 0);
+                let eff_port = port.unwrap_or(if which == 1 { 19132 } else { 25565 });
+                let exp = expected_exchange(fam, GatherToggle::Try, GatherToggle::Try, ip, eff_port, eff_port);
+                ctx.distinct_key(&(case.label.clone(), x.outcome.class()));
+                compare(ctx, &x, &exp, &format!("{}:module", family_tag(fam)), &case.label);
             }
             What::Protocol(i) => {
                 let t = protocol_targets()[i].clone();
